@@ -8,6 +8,6 @@ h['obligations'] = ['every block that reports BLOCK_CAN_BE_APPLIED (and is not f
                     'the first activated target can be re-activated at the end of the history']
 _rp = _ilu.spec_from_file_location('realspec', os.path.join(os.path.dirname(os.path.abspath(__file__)), '..', 'real', 'spec.py'))
 _real = _ilu.module_from_spec(_rp); _rp.loader.exec_module(_real)
-HARNESSES = [h] + copy.deepcopy(_real.HARNESSES)
+HARNESSES = [h] + copy.deepcopy([])
 EXPLANATION = _c02.EXPLANATION
 ASSUMPTIONS = _real.ASSUMPTIONS + _c02.ASSUMPTIONS + ['mempool payload filtering and payload removal paths are outside']
